@@ -12,7 +12,9 @@ Follows `src/alignment/poa.rs` statement by statement, with petgraph's iteration
   first column `(node index + 1)·gap`, per-row maximisation over the predecessors with Rust's `max`
   tie-breaking (the later candidate wins a tie), then the insertion scan;
 * `traceback` = `Traceback::alignment`; `addAlignment` = `Poa::add_alignment` (wildcard `X` included);
-* `consensus` = `Aligner::consensus` (returns `none` where the Rust code indexes out of bounds).
+* `consensus` = `Aligner::consensus` (as repaired by 8b80f4b: one table entry per node, `usize::MAX` as the
+  initial successor; returns `none` where the Rust code would index out of bounds — never for a non-empty graph,
+  see `consensus_is_path`).
 
 The driver runs these against the observed operations / graph dumps / consensus and reports differences as
 `drift-*` tags (never as violations: tie-breaks are not part of the property).  The row functions
@@ -235,7 +237,7 @@ def tgt (a b : Int × Int × Nat) : Bool :=
 abbrev CEntry := Int × Int × Option Nat
 
 def consTable (n : Nat) (es : WEdges) : Array CEntry :=
-  (topo n es).foldl (init := Array.replicate (n + 1) ((0, 0, some 0) : CEntry)) fun tab v =>
+  (topo n es).foldl (init := Array.replicate n ((0, 0, none) : CEntry)) fun tab v =>
     let best : Int × Int × Option Nat :=
       (inN es v).foldl (init := ((0, 0, none) : CEntry)) fun best u =>
         let w := wsum es u v
